@@ -82,7 +82,11 @@ def correspond(ctx, prop):
         rng = random.Random(seed)
         spec = S.gen_job(rng, maxn)
         ws = S.gen_cluster(rng, spec, ctx.budget(3, 4), ctx.budget(3, 4))
-        cases.append({"spec": spec, "workers": ws, "seed": seed, "fifo": i % 2 == 0})
+        case = {"spec": spec, "workers": ws, "seed": seed, "fifo": i % 2 == 0}
+        if spec["ext"] and rng.random() < 0.08:
+            # a requested output whose VALUE is None (oracle-only run: the model's values are never None)
+            case["none_output"] = list(rng.choice(spec["ext"]))
+        cases.append(case)
     for ci, c in enumerate(cases):
         res = S.run_case(c["spec"], c["workers"], c["seed"], c["fifo"], none_output=c.get("none_output"))
         if ci < len(corpus) and not any(p == prop for (p, _, _) in S.oracle(res, c["fifo"])):
@@ -102,7 +106,9 @@ def correspond(ctx, prop):
             runs, batch_cases = [], []   # traces are large: keeping thousands alive makes the GC pauses exceed run_case's alarm
         st = res["stats"]
         nontrivial = st["transmits"] + st["fetches"] + st["purges"] > 0
-        ctx.case({"spec": c["spec"], "workers": c["workers"], "seed": c["seed"], "fifo": c["fifo"]}, nontrivial=nontrivial)
+        ctx.case({"spec": c["spec"], "workers": c["workers"], "seed": c["seed"], "fifo": c["fifo"], "none_output": c.get("none_output")}, nontrivial=nontrivial)
+        if c.get("none_output") is not None:
+            ctx.count("runs_with_a_None_valued_requested_output")
         ctx.count("runs_fifo" if c["fifo"] else "runs_anyorder")
         ctx.count("tasks_total", st["tasks"])
         for k in ("transmits", "fetches", "purges"):
@@ -124,8 +130,8 @@ def correspond(ctx, prop):
                 sig["cause"] = "last-output-notice-overtook-earlier" if last_overtook(res["trace"]) else "other"
             if prop == "C01" and not c["fifo"] and kind in ("requested-output-not-delivered", "run-did-not-return-requested-outputs"):
                 sig["cause"] = "last-output-notice-overtook-earlier" if last_overtook(res["trace"]) else "other"
-            if c.get("none_output") is not None:
-                # a requested output whose VALUE is None (replay of a known finding): only this cause is tagged
+            if c.get("none_output") is not None and sig.get("cause") != "last-output-notice-overtook-earlier":
+                # a requested output whose VALUE is None
                 sig["cause"] = "none-valued-output"
 
             def pred(spec2, ws2, kind=kind, c=c):
